@@ -354,6 +354,7 @@ def process_chunk(args):
             prog = progen.Program.from_json(pj)
             expect = expect_from_json(ej)
             res = {'key': prog.key, 'kind': pj.get('kind'), 'features': pj.get('features', []), 'errors': [], 'cf': [], 'checker': [], 'c01cf': [],
+                   'why': {'calls': 0, 'with_state': 0, 'composite_entries': 0, 'dependent_entries': 0},
                    'rt_failures': [], 'counts': {}, 'ncalls_static': {}, 'runs': 0, 'diverged': 0, 'traces': 0,
                    'directive_loops': len(expect['loops']), 'seen_directive_loops': 0}
             results.append(res)
@@ -374,6 +375,7 @@ def process_chunk(args):
                     if req is not None:
                         lines.append(req); owners.append((res, 'cf', rec, tr))
                     try:
+                        lines.append('c03.why' + final_tree_request(tr)[len('c03.check'):]); owners.append((res, 'why', rec, tr))
                         lines.append(final_tree_request(tr)); owners.append((res, 'check', rec, tr))
                     except Exception as e:  # noqa
                         res['errors'].append('serialise final tree: %r' % (e,))
@@ -443,6 +445,18 @@ def process_chunk(args):
                 if what == 'cf':
                     d = c03_cf.compare_cf(tr, ans)
                     res['cf'].append({'recursive': rec, 'difference': d})
+                elif what == 'why':
+                    try:
+                        rows = parse_sexp(ans)
+                        w = res['why']
+                        for r in rows:
+                            if isinstance(r, list) and len(r) == 3:
+                                w['calls'] += 1
+                                w['with_state'] += r[0] != '0'
+                                w['composite_entries'] += r[1] == 'True'
+                                w['dependent_entries'] += r[2] == 'True'
+                    except Exception:  # noqa
+                        pass
                 elif what.startswith('c01cf'):
                     try:
                         flags = [x == 'True' for x in parse_sexp(ans)]
@@ -514,8 +528,8 @@ def lean_replay(run, corp):
         return
     for (fn, want), ans in zip(names, run.drive(lines)):
         rows = parse_sexp(ans) if ans.startswith('(') else []
-        hit = [r for r in rows if isinstance(r, list) and len(r) == 3 and r[1] == 'True' and r[2] == 'True']
-        incoherent = [r for r in rows if isinstance(r, list) and len(r) == 3 and r[1] != r[2]]
+        hit = [r for r in rows if isinstance(r, list) and len(r) >= 3 and r[1] == 'True' and r[2] == 'True']
+        incoherent = [r for r in rows if isinstance(r, list) and len(r) >= 3 and r[1] != r[2]]
         run.evaluations += 1
         if want == 'missing_composite_written_back':
             run.oblige('counterexample:lean-replay:' + fn, 'counterexample', bool(hit) and not incoherent,
@@ -586,6 +600,8 @@ def absorb(run, results, progs_by_key, stats, corpus_expect=None):
             stats['checker_calls'] += c.get('ncalls') or 0
             if not c['ok']:
                 ck_bad.append({'program': prog.to_json(), 'recursive': c['recursive'], 'checker_answer': c['answer']})
+        for k, v in res.get('why', {}).items():
+            stats['why'][k] = stats['why'].get(k, 0) + v
         for c in res.get('c01cf', []):
             cs = stats['c01cf']
             fl = c['flags']
@@ -621,7 +637,7 @@ def absorb(run, results, progs_by_key, stats, corpus_expect=None):
 
 def new_stats():
     return {'programs': 0, 'traces': 0, 'runs': 0, 'diverged': 0, 'rt': {}, 'static_calls': {}, 'features': {}, 'errors': {},
-            'cf_cases': 0, 'checker_cases': 0, 'checker_calls': 0, 'directive_loops': 0, 'seen_directive_loops': 0,
+            'cf_cases': 0, 'checker_cases': 0, 'checker_calls': 0, 'directive_loops': 0, 'seen_directive_loops': 0, 'why': {},
             'c01cf': dict({k: 0 for k in ('tables', 'bad_answers', 'no_skip', 'pd_hyp', 'nl_hyp', 'model_routed', 'model_pd', 'model_nl',
                                           'real_pass_trees', 'real_pass_routed', 'real_pass_pd', 'real_pass_nl',
                                           'real_final_trees', 'real_final_routed', 'real_final_pd', 'real_final_nl')},
@@ -832,6 +848,22 @@ def check(run, only=None):
     run.cov['emitted_calls_static'] = stats['static_calls']
     run.cov['instrumented_runs'] = stats['runs']
     run.cov['runtime_checks'] = stats['rt']
+    # (1) why programs leave the class `lawful` of the get/set theorems: static reasons read off the generated state tuples
+    # by the driver (c03.why), and the class of every dynamic invocation as computed by the instrumented operators
+    classes = {k[len('class:'):]: v for k, v in stats['rt'].items() if k.startswith('class:')}
+    run.cov['why_outside_get_set_hypotheses'] = {
+        'static (emitted calls of the real final code)': dict(stats['why'], meaning={
+            'composite_entries': 'the state tuple has an ldu-guarded entry: at run time it may be missing (class missingComposite) or have an Undefined base (class undefinedBase)',
+            'dependent_entries': 'the path of an entry goes through a variable / prefix path that is itself an entry (class dependent)'}),
+        'dynamic (class of each probed invocation; laws are theorems on lawful)': classes}
+    clause_counts = {k[len('clause:'):]: v for k, v in stats['rt'].items() if k.startswith('clause:')}
+    clause_counts['outputs_first (contract-following if_stmt runs)'] = stats['rt'].get('functional_if_runs', 0)
+    run.cov['operator_contract_clauses_checked_dynamically'] = clause_counts
+    nclass = sum(classes.values())
+    run.oblige('partition:c03-state-classes', 'correspondence',
+               stats['rt'].get('FAILURE-IN-LAWFUL-CLASS', 0) == 0 and nclass == stats['rt'].get('clause:lengths', 0),
+               'classified %d of %d invocations; algebra failures in class lawful: %d' % (
+                   nclass, stats['rt'].get('clause:lengths', 0), stats['rt'].get('FAILURE-IN-LAWFUL-CLASS', 0)))
     run.cov['instrumented_run_differs_from_plain_run'] = stats['diverged']
     run.cov['directive_loops_generated'] = stats['directive_loops']
     run.cov['directive_loops_seen_at_runtime'] = stats['seen_directive_loops']
